@@ -233,6 +233,8 @@ pub struct State {
     tso_used: bool,
     dead_objs: Vec<(&'static str, usize)>,
     obj_size: Vec<(usize, usize)>,
+    /// armed breakpoints: the next thread that emits the label blocks on the flag
+    breakpoints: Vec<(&'static str, usize)>,
     spurious_used: bool,
 }
 
@@ -309,6 +311,7 @@ impl Engine {
                 tso_used: false,
                 dead_objs: Vec::new(),
                 obj_size: Vec::new(),
+                breakpoints: Vec::new(),
                 spurious_used: false,
             }),
             shared,
@@ -477,6 +480,19 @@ impl Engine {
         let mut st = self.lock();
         st.th[me].blocked = Some(Cond::Label(name));
         self.resched(st, me);
+    }
+
+    /// breakpoint (time shaping): the next thread of the code under test that passes the hook label `name` is held there
+    /// until the returned flag is set with `release`. The harness learns that it got there with `wait_label(name)`.
+    pub fn break_at(&self, name: &'static str) -> &'static AtomicBool {
+        let f: &'static AtomicBool = Box::leak(Box::new(AtomicBool::new(false)));
+        self.lock().breakpoints.push((name, f as *const _ as usize));
+        f
+    }
+
+    pub fn release(&self, f: &'static AtomicBool) {
+        f.store(true, Ordering::SeqCst);
+        self.sched_point();
     }
 
     /// an explicit scheduling point for harness code
@@ -1349,6 +1365,12 @@ impl Hooks for Engine {
         let mut st = Engine::lock(self);
         if st.labels.len() < 4096 {
             st.labels.push((me, s, arg));
+        }
+        if let Some(i) = st.breakpoints.iter().position(|b| b.0 == s) {
+            let (_, flag) = st.breakpoints.remove(i);
+            st.th[me].blocked = Some(Cond::Flag(flag));
+            self.resched(st, me);
+            st = Engine::lock(self);
         }
         // lifetime witness for objects that live on a stack (the quarantine allocator cannot see them): the code reports
         // "<x>.created" / "<x>.dropped" with the object's address and marks later uses of the object with "<x>.<...>use_after..."
